@@ -115,6 +115,8 @@ def time_grid(rng, tend, uniform=None, special=None):
         g = np.linspace(0.0, tend, npts)
     else:
         g = np.concatenate([[0.0], np.sort(np.array([rng.uniform(0.02 * tend, tend) for _ in range(npts - 1)]))])
+    # the initial time need not be zero (time-periodic rates make the difference visible)
+    g = g + rng.choice([0.0, 0.0, 1.5, -2.25, 20.0])
     if special == "origin":
         g = np.concatenate([[g[0]], g])
     elif special == "repeat":
